@@ -103,6 +103,11 @@ pub fn gen_c01(out: &mut impl Write, seed: u64, thorough: bool) {
             let a = if be.has_aad() && i % 2 == 1 { r.bytes_in(1, 40) } else { vec![] };
             // oracle: encrypt()/sign() -> to_string -> parse -> decrypt/verify == input (library's own randomness)
             writeln!(out, "o.rt {} local {} {} {} {}", be.name(), hex(&key), hex(&msg), hex(&f), hex(&a)).unwrap();
+            if i < 6 {
+                // footer type with a non-injective decoder: equivalent-but-different footer bytes must not authenticate
+                writeln!(out, "o.fcanon {} local {} {} {}", be.name(), hex(&key), hex(&msg), hex(&f)).unwrap();
+                writeln!(out, "o.fcanon {} public {} {} {}", be.name(), hex(&sk), hex(&msg), hex(&f)).unwrap();
+            }
             writeln!(out, "o.rt {} local - {} {} {}", be.name(), hex(&msg), hex(&f), hex(&a)).unwrap();
             if len <= 1024 || (be != Be::V1 && len <= 65536) {
                 writeln!(out, "o.rt {} public {} {} {} {}", be.name(), hex(&sk), hex(&msg), hex(&f), hex(&a)).unwrap();
@@ -198,6 +203,11 @@ pub fn gen_c02(out: &mut impl Write, seed: u64, thorough: bool) {
             let s = Sealed { be, key: key.clone(), hdr: hdr.clone(), payload: unb64(p64), footer: footer.clone(), aad: aad.clone(), msg: msg.clone() };
             // the untouched token opens
             emit_open(out, be, &key, &tok, &aad, &format!("ok:{}", hex(&msg)));
+            if ti < 4 {
+                // footer type with a non-injective decoder: equivalent-but-different footer bytes must not authenticate
+                writeln!(out, "o.fcanon {} local {} {} {}", be.name(), hex(&key), hex(&msg), hex(&footer)).unwrap();
+                writeln!(out, "o.fcanon {} public - {} {}", be.name(), hex(&msg), hex(&footer)).unwrap();
+            }
             // every single-bit flip: all bits of nonce and tag and the first/last ciphertext bytes; stride elsewhere
             let plen = s.payload.len();
             for byte in 0..plen {
